@@ -117,6 +117,12 @@ def run_writepath(ck, prop, tier, g_small, g_sim, n_sim, crash_points, restart=T
         adversarial.append('persist-inversion-counterexample')
     else:
         ck.inconclusive.append('mutant specification (unserialised persist) not refuted by TLC: vacuity guard failed')
+    t = vlib.tlc_check('MCWritePath.tla', wp_cfg('WritePath.trap.cfg', 'Spec', 2, 2, True, invs='NoOvertakeAfterPersist', props=''), prop + '-wp-trap')
+    if t.get('violated') == 'NoOvertakeAfterPersist' and t.get('trace'):
+        steps = [s for s in t['trace'] if s['action'] not in ('Crash', 'Recover')]
+        bs.append({'id': 'overtaken-between-persist-and-index', 'steps': steps})
+    else:
+        ck.inconclusive.append('trap NoOvertakeAfterPersist not reached by TLC: the overtaking behaviour is missing from this run')
     for k, g in enumerate(g_sim):
         sims, _ = vlib.tlc_simulate('SimWritePath.tla', wp_cfg('WritePath.sim.cfg', 'SimSpec', g, 3, True, invs='Durable', props=''),
                                     '%s-wp-sim%d' % (prop, k), n_sim, 6 * g + 14, SEED * 13 + k)
